@@ -125,6 +125,10 @@ class ScriptedBackend : public FlatBackend< MIPBackend<ScriptedBackend> > {
     AddStoredOption("tech:option_example opt_example example_opt", "Example string option.", opt_str_);
     AddStoredOption("tech:int_example int_example", "Example int option.", opt_int_, -100, 100);
     AddSolveResults({ { sol::FAILURE + 1, "fatal error 1" } });
+    // solver-specific codes the way real drivers register them, several at the first code of a documented range
+    AddSolveResults({ { 200, "infeasible: scripted" }, { 203, "infeasible, IIS finder failed" }, { 300, "unbounded: scripted" },
+                      { 400, "limit, feasible: scripted" }, { 402, "time limit, feasible" }, { 470, "limit: scripted" },
+                      { 500, "failure: scripted" } });
   }
   void InitOptionParsing() override { }
   void FinishOptionParsing() override { set_verbose_mode(false); }
